@@ -11,6 +11,7 @@ NOTE = ("Trusted: the gosym interpreter and its intrinsics (validated on every r
         "nothing outside them is claimed. Goroutine interleavings are not explored.")
 
 claimed = {
+ "C04": ("DESIGN.md §4 C04", "Compiled lambda expressions `a op b` over the full operator x operand-kind matrix with fully symbolic values equal an independent typed reference (value, kind, error-ness); history independence of the re-specialisation cache (evaluate on S1 then S2, kinds changing); AND/OR short-circuit. Function library beyond strSubstring, regex matching, depth > 2 are outside (see evidence)."),
  "C05": ("DESIGN.md §4 C05", "Kernels of the no-crash property decided per entry point: ast.Parse/ParseLambda on 27 contexts with N arbitrary inserted bytes (no panic in any goroutine, node xor error, lexer goroutine gone on return, termination within the unwinding budget); further kernels (evaluator faults, node runner, UDF peer messages) as listed in the evidence file. Only these entry points are claimed."),
  "C03": ("DESIGN.md §4 C03", "Time windows: for a table of period/every/align/fillPeriod configurations and every bounded non-decreasing timestamp sequence the solver shows each emission is on the reference schedule with exactly the points in [T-period,T); the ring buffer is covered for histories of any length by an inductive step from an arbitrary valid state; count windows likewise."),
  "C12": ("DESIGN.md §4 C12", "CircularQueue (join/union buffering): inductive step from an arbitrary valid state against an abstract FIFO. (union/join merge-order harnesses: see evidence for what is currently encoded.)"),
